@@ -1,6 +1,8 @@
 """C10  Allocation tallies are exact, per thread, and track the true peak."""
 from lib.facts import norm, place_fields, const_int, direct_place, nophi
 from lib.paths import Explorer, call_sequences
+from lib.patheval import PathEval
+from lib.symexpr import add, show
 from .C09 import methods, IMPL
 
 EXPLANATION = (
@@ -293,150 +295,113 @@ def _const_array_variants(body):
     return out
 
 
+def _implies_le(summary, x, y):
+    """The path's decisions imply x <= y:  (x < y) taken, or (y < x) refused."""
+    return summary.cond(("Lt", x, y)) is True or summary.cond(("Lt", y, x)) is False or x == y
+
+
+def _max_update_ok(summary, key, old, cand):
+    """On this path the cell `key` ends up as max(old, cand): written with Ord::max of the two (either order), or written
+    with cand on a path that implies old <= cand, or left alone on a path that implies cand <= old."""
+    if key in summary.mem:
+        v = summary.mem[key]
+        if v[0] == "call" and v[1].endswith("::max") and set(v[2]) == {old, cand} and len(v[2]) == 2:
+            return True, "max"
+        if v == cand and _implies_le(summary, old, cand):
+            return True, "conditional-store"
+        if v == old and _implies_le(summary, cand, old):
+            return True, "rewritten-with-itself"
+        return False, v
+    return (True, "left-alone") if _implies_le(summary, cand, old) else (False, "not written on a path that does not imply %s <= %s" % (show(cand), show(old)))
+
+
 def r10_3(ctx, prog, crate):
-    inc_fns = {"tally_alloc": {"current_count", "current_size"}, "tally_realloc": {"current_size"}}
-    for fn in ("tally_alloc", "tally_realloc", "tally_dealloc"):
+    """What the tally functions compute, as flow-sensitive path summaries (lib/patheval.py): final value of every field
+    on every path in terms of the initial values - independent of how the update is spelled."""
+    OP = "alloc::ThreadAllocInfo::tally_op"
+    F = lambda f: ("arg", 1, (f,))                                      # noqa: E731  initial value of self.<f>
+    K = lambda f: (1, (f,))                                             # noqa: E731  memory cell self.<f>
+    diff = ("field", ("call", "core::num::overflowing_sub", (("arg", 3, ()), ("arg", 2, ()))), (0,))
+    shrink = ("field", ("call", "core::num::overflowing_sub", (("arg", 3, ()), ("arg", 2, ()))), (1,))
+    spec = {
+        # fn: (current_count', current_size', tracks max of count, of size, tally_op(op, size) arguments)
+        "tally_alloc": (add(F("current_count"), ("int", 1)), add(F("current_size"), ("arg", 2, ())), True, True, ("Alloc", ("arg", 2, ()))),
+        "tally_dealloc": (add(F("current_count"), ("int", -1)), add(F("current_size"), ("arg", 2, ()), -1), False, False, ("Dealloc", ("arg", 2, ()))),
+        "tally_realloc": (None, add(F("current_size"), diff), False, True, ("realloc", ("call", "core::num::wrapping_abs", (diff,)))),
+    }
+    for fn, (cc, cs, mxc, mxs, (opname, opsize)) in spec.items():
         b = prog.body("alloc::ThreadAllocInfo::" + fn, crate)
         if not ctx.anchor("R10.3", fn, 1 if b else 0, 1):
             continue
         ctx.saw(b)
-        ev = linear(b)
-        if not ctx.check(ev is not None, "R10.3", [fn, "straight-line"], "`%s` is not straight-line code" % fn, b.where(0)):
+        sums = PathEval(b, effects={OP: [("tallies",)]}).run()
+        if not ctx.check(sums is not None and len(sums) >= 1, "R10.3", [fn, "summarisable"], "`%s` has a loop or too many paths to summarise" % fn, b.where(0)):
             continue
-        writes = []  # (field, kind, detail, idx)
-        for i, e in enumerate(ev):
-            if e[0] == "assign":
-                s = e[3]
-                fs = place_fields(s["p"])
-                if s["p"]["l"] == 1 and fs and fs[0] in ("current_count", "current_size", "max_count", "max_size"):
-                    srcs = b.prov._rv(s["rv"], (), frozenset(), e[1], e[2])
-                    writes.append((fs[0], srcs, i, e))
-        fields_written = [w[0] for w in writes]
-        if fn == "tally_dealloc":
-            ctx.check(not any(f.startswith("max_") for f in fields_written), "R10.3", [fn, "no-max-update"],
-                      "tally_dealloc writes a max_* field", b.where(0))
-            ctx.check(sorted(fields_written) == ["current_count", "current_size"], "R10.3", [fn, "decrements-both"],
-                      "tally_dealloc writes %s, expected current_count and current_size once each" % fields_written, b.where(0))
-            for f, srcs, i, e in writes:
-                ops = {s.a for s in srcs if s.kind == "binop"}
-                ctx.check(ops <= {"Sub", "SubWithOverflow"} and ops, "R10.3", [fn, f, "is-decrement"],
-                          "`%s` is updated with %s in tally_dealloc" % (f, sorted(ops)), b.where(e[1]))
-                self_f = any(s.kind == "param" and s.b[:1] == (f,) for s in srcs)
-                ctx.check(self_f, "R10.3", [fn, f, "reads-own-field"], "`%s` not computed from itself" % f, b.where(e[1]))
-                _operand_check(ctx, b, fn, f, srcs, e)
-            continue
-        want = inc_fns[fn]
-        cur = [w for w in writes if w[0].startswith("current_")]
-        ctx.check({w[0] for w in cur} == want and len(cur) == len(want), "R10.3", [fn, "current-fields-updated"],
-                  "`%s` updates %s, expected exactly %s" % (fn, [w[0] for w in cur], sorted(want)), b.where(0))
-        for k, (f, srcs, i, e) in enumerate(writes):
-            if not f.startswith("current_"):
-                continue
-            ops = {s.a for s in srcs if s.kind == "binop"}
-            ctx.check(ops <= {"Add", "AddWithOverflow"} and ops, "R10.3", [fn, f, "is-increment"],
-                      "`%s` is updated with %s" % (f, sorted(ops)), b.where(e[1]))
-            ctx.check(any(s.kind == "param" and s.b[:1] == (f,) for s in srcs), "R10.3", [fn, f, "reads-own-field"],
-                      "`%s` not computed from itself" % f, b.where(e[1]))
-            _operand_check(ctx, b, fn, f, srcs, e)
-            mx = "max_" + f[len("current_"):]
-            nxt = writes[k + 1] if k + 1 < len(writes) else None
-            ok = nxt is not None and nxt[0] == mx
-            if ctx.check(ok, "R10.3", [fn, f, "followed-by-max-update"],
-                         "the increment of `%s` is not immediately followed by an update of `%s`" % (f, mx), b.where(e[1])):
-                d = direct_place(b, nxt[3][3]["rv"]["o"]) if nxt[3][3]["rv"]["k"] == "use" else None
-                okm = False
-                got = None
-                if d and d[0] == "call" and d[1].callee == "std::cmp::Ord::max" and len(d[1].args) == 2:
-                    got = [direct_place(b, a) for a in d[1].args]
-                    okm = all(g and g[0] == "place" and g[1] == 1 for g in got) and \
-                        sorted(g[2] for g in got) == sorted([(mx,), (f,)])
-                ctx.check(okm, "R10.3", [fn, mx, "is-max-of-both"],
-                          "`%s` is not assigned Ord::max(self.%s, self.%s) (operands: %s)" % (mx, mx, f, got),
-                          b.where(nxt[3][1]))
-                # the max reads current *after* the increment: the read statement comes after the write
-                mc = [x for x in ev[i:nxt[2]] if x[0] == "call" and x[3].callee == "std::cmp::Ord::max"]
-                ctx.check(len(mc) == 1, "R10.3", [fn, mx, "max-after-increment"],
-                          "Ord::max is not evaluated between the increment and the max update", b.where(e[1]))
-    b = prog.body("alloc::ThreadAllocInfo::tally_op", crate)
+        for n, sm in enumerate(sums):
+            tag = "path%d" % n if len(sums) > 1 else "path"
+            where = b.where(sm.blocks[-1])
+            allowed = {K("tallies"), K("current_count"), K("current_size"), K("max_count"), K("max_size")}
+            extra = sorted(str(k) for k in sm.mem if k not in allowed)
+            ctx.check(not extra, "R10.3", [fn, "writes-only-the-running-totals"] + extra, "`%s` also writes %s" % (fn, extra), where)
+            # current_* : exact value
+            for f, want in (("current_count", cc), ("current_size", cs)):
+                got = sm.mem.get(K(f))
+                if want is None:
+                    ctx.check(got is None or got == F(f), "R10.3", [fn, f, "unchanged"], "`%s` changes %s to %s (a reallocation does not change the number of live allocations)"
+                              % (fn, f, show(got) if got else None), where)
+                else:
+                    ctx.check(got == want, "R10.3", [fn, f, "by-one" if f == "current_count" else ("by-signed-diff" if fn == "tally_realloc" else "by-size")],
+                              "`%s` leaves %s = %s, expected %s" % (fn, f, show(got) if got else "<unchanged>", show(want)), where, detail=show(want))
+            # max_* : running maximum of the updated current value, or untouched
+            for f, tracked, cur_new in (("max_count", mxc, cc), ("max_size", mxs, cs)):
+                if tracked:
+                    ok, how = _max_update_ok(sm, K(f), F(f), cur_new)
+                    ctx.check(ok, "R10.3", [fn, f, "is-max-of-both"], "`%s` leaves %s = %s, expected max(%s, %s)" % (fn, f, how if isinstance(how, str) else show(how), show(F(f)), show(cur_new)),
+                              where, detail=how if isinstance(how, str) else None)
+                else:
+                    got = sm.mem.get(K(f))
+                    ctx.check(got is None or got == F(f), "R10.3", [fn, "no-max-update" if fn == "tally_dealloc" else f + "-unchanged"],
+                              "`%s` writes %s = %s (a %s cannot raise this maximum)" % (fn, f, show(got) if got else None, "deallocation" if fn == "tally_dealloc" else "reallocation"), where)
+            # exactly one tally_op(self, <op>, <size>)
+            ops = [c for c in sm.calls if c[0] == OP]
+            ok = len(ops) == 1 and ops[0][1][0] == ("ptr", (1, ())) and ops[0][1][2] == opsize
+            if ok:
+                o = ops[0][1][1]
+                if opname == "realloc":
+                    ok = o[0] == "site" and o[1] == "alloc::AllocOp::realloc" and o[3] == (shrink,)
+                else:
+                    ok = o[0] == "adt" and o[2] == opname
+            ctx.check(ok, "R10.3", [fn, "tallies-op-and-size"], "`%s` does not call tally_op(self, %s, %s) exactly once: %s" % (fn, opname, show(opsize), [(c[0], [show(a) for a in c[1]]) for c in ops]), where)
+            other = [c[0] for c in sm.calls if c[0] not in (OP, "alloc::AllocOp::realloc")]
+            ctx.check(not other, "R10.3", [fn, "no-other-calls"] + other, "`%s` calls %s" % (fn, other), where)
+    b = prog.body(OP, crate)
     if ctx.anchor("R10.3", "tally_op", 1 if b else 0, 1):
         ctx.saw(b)
-        ev = linear(b)
-        if ctx.check(ev is not None, "R10.3", ["tally_op", "straight-line"], "not straight-line", b.where(0)):
-            ws = {}
-            for e in ev:
-                if e[0] == "assign":
-                    s = e[3]
-                    fs = place_fields(s["p"])
-                    if fs in (("count",), ("size",)) and s["p"]["proj"][0]["k"] == "deref":
-                        ws.setdefault(fs[0], []).append((b.prov._rv(s["rv"], (), frozenset(), e[1], e[2]), e, s))
-            ctx.check(sorted(ws) == ["count", "size"] and all(len(v) == 1 for v in ws.values()), "R10.3",
-                      ["tally_op", "writes-count-and-size-once"], "tally_op writes %s" % {k: len(v) for k, v in ws.items()}, b.where(0))
-            for f, want in (("count", None), ("size", b.param_name(3))):
-                for srcs, e, s in ws.get(f, []):
-                    base = b.prov.local_src(s["p"]["l"])
-                    ctx.check(any(x.kind == "call" and x.a == "alloc::AllocOpMap::get_mut" for x in base), "R10.3",
-                              ["tally_op", f, "slot-from-get_mut"], "written tally is not tallies.get_mut(op)", b.where(e[1]))
-                    ops = {x.a for x in srcs if x.kind == "binop"}
-                    ctx.check(ops and ops <= {"Add", "AddWithOverflow"}, "R10.3", ["tally_op", f, "is-increment"],
-                              "tally.%s updated with %s" % (f, sorted(ops)), b.where(e[1]))
-                    consts = {x.a for x in srcs if x.kind == "const"}
-                    params = {x.a for x in srcs if x.kind == "param" and not x.b} - {b.param_name(1), b.param_name(2)}
-                    if f == "count":
-                        ctx.check(consts == {"1_u64"} or consts == {"1_usize"} or (len(consts) == 1 and list(consts)[0].startswith("1_")),
-                                  "R10.3", ["tally_op", "count-plus-one"], "count incremented by %s" % sorted(consts), b.where(e[1]))
-                        ctx.check(not params, "R10.3", ["tally_op", "count-independent-of-size"],
-                                  "count derives from parameter(s) %s" % sorted(params), b.where(e[1]))
-                    else:
-                        ctx.check(params == {want} and not consts, "R10.3", ["tally_op", "size-plus-size"],
-                                  "size incremented by %s %s, expected the `size` parameter" % (sorted(params), sorted(consts)), b.where(e[1]))
-            gm = [c for c in b.live_calls() if c.callee == "alloc::AllocOpMap::get_mut"]
-            if gm:
-                a0 = b.prov.op_src(gm[0].args[0])
-                a1 = b.prov.op_src(gm[0].args[1])
-                ctx.check(any(s.kind == "param" and s.b == ("tallies",) for s in a0) and
-                          {s.label() for s in a1} == {"param:" + b.param_name(2)}, "R10.3", ["tally_op", "get_mut(self.tallies, op)"],
-                          "get_mut is not applied to (self.tallies, op)", gm[0].line())
-    # clear() and new()
-    b = prog.body("alloc::ThreadAllocInfo::clear", crate)
-    if ctx.anchor("R10.3", "ThreadAllocInfo::clear", 1 if b else 0, 1):
-        ctx.saw(b)
-        news = [c for c in b.live_calls() if c.callee == "alloc::ThreadAllocInfo::new"]
-        ok = False
-        for bi, si, s in b.stmts():
-            if s["k"] == "assign" and s["p"]["l"] == 1 and [pr["k"] for pr in s["p"]["proj"]] == ["deref"]:
-                srcs = b.prov._rv(s["rv"], (), frozenset(), bi, si)
-                ok = any(x.kind == "call" and x.a == "alloc::ThreadAllocInfo::new" for x in srcs)
-        ctx.check(ok and len(news) == 1, "R10.3", ["clear", "overwrites-whole-struct-with-new"],
-                  "clear() does not assign `*self = Self::new()`", b.where(0))
-    b = prog.body("alloc::ThreadAllocInfo::new", crate)
-    adt = prog.adt("alloc::ThreadAllocInfo", crate)
-    if ctx.anchor("R10.3", "ThreadAllocInfo::new + ADT", (1 if b else 0) + (1 if adt else 0), 2):
-        ctx.saw(b)
-        fields = [f["name"] for f in adt["variants"][0]["fields"]]
-        aggs = [s for bi, si, s in b.stmts() if s["k"] == "assign" and s["rv"]["k"] == "agg" and s["rv"]["ak"] == "adt"
-                and norm(s["rv"]["adt"]) == "alloc::ThreadAllocInfo"]
-        if ctx.check(len(aggs) == 1, "R10.3", ["new", "one-aggregate"], "new() builds %d aggregates" % len(aggs), b.where(0)):
-            rv = aggs[0]["rv"]
-            ctx.check(rv["fields"] == fields, "R10.3", ["new", "all-fields"], "fields %s vs ADT %s" % (rv["fields"], fields), b.where(0))
-            for name, o in zip(rv["fields"], rv["ops"]):
-                srcs = b.prov.op_src(o)
-                if name == "tallies":
-                    ok = {s.a for s in srcs if s.kind == "call"} == {"alloc::AllocOpMap::new"}
-                else:
-                    ok = const_int(o) == 0
-                ctx.check(ok, "R10.3", ["new", name, "zero"], "field `%s` is initialised from %s, expected zero"
-                          % (name, sorted(s.label() for s in srcs)), b.where(0))
-    b = prog.body("alloc::AllocOpMap::new", crate)
-    if ctx.anchor("R10.3", "ThreadAllocTallyMap::new", 1 if b else 0, 1):
-        ctx.saw(b)
-        txt = []
-        for bi, si, s in b.stmts():
-            if s["k"] == "assign":
-                rv = s["rv"]
-                txt.append(rv.get("d", "") if rv["k"] == "other" else rv["k"])
-        zero_fill = any(t.startswith("[const 0_u8;") for t in txt)
-        ctx.check(zero_fill, "R10.3", ["ThreadAllocTallyMap::new", "zero-bytes"],
-                  "ThreadAllocTallyMap::new is not a transmute of [0u8; size_of::<Self>()] (rvalues: %s)" % txt, b.where(0))
+        sums = PathEval(b).run()
+        if ctx.check(sums is not None and len(sums) == 1, "R10.3", ["tally_op", "straight-line"], "tally_op is not a single path", b.where(0)):
+            sm = sums[0]
+            gm = [c for c in sm.calls if c[0] == "alloc::AllocOpMap::get_mut"]
+            ok = len(gm) == 1 and gm[0][1] == (("ptr", (1, ("tallies",))), ("arg", 2, ()))
+            ctx.check(ok, "R10.3", ["tally_op", "slot-from-get_mut"], "the tally written is not self.tallies.get_mut(op): %s" % [(c[0], [show(a) for a in c[1]]) for c in gm], b.where(0))
+            if ok:
+                reg = ("ret", "alloc::AllocOpMap::get_mut", gm[0][2])
+                cnt = sm.mem.get((reg, ("count",)))
+                siz = sm.mem.get((reg, ("size",)))
+                ctx.check(cnt == add(("cell", reg, ("count",)), ("int", 1)), "R10.3", ["tally_op", "count-plus-one"], "count' = %s" % (show(cnt) if cnt else None), b.where(0))
+                ctx.check(siz == add(("cell", reg, ("size",)), ("arg", 3, ())), "R10.3", ["tally_op", "size-plus-size"], "size' = %s" % (show(siz) if siz else None), b.where(0))
+                others = sorted(str(k) for k in sm.mem if k not in ((reg, ("count",)), (reg, ("size",)), (1, ("tallies",))))
+                ctx.check(not others, "R10.3", ["tally_op", "writes-count-and-size-once"], "tally_op also writes %s" % others, b.where(0))
+    # AllocOp::realloc(is_shrink): Shrink iff the flag
+    rb = prog.body("alloc::AllocOp::realloc", crate)
+    if ctx.anchor("R10.3", "AllocOp::realloc", 1 if rb else 0, 1):
+        sums = PathEval(rb).run()
+        tab = {}
+        for sm in sums or []:
+            v = sm.ret
+            flag = sm.cond(("bool", ("arg", 1, ())))
+            if v[0] == "adt":
+                tab[flag] = v[2]
+        ctx.check(tab == {True: "Shrink", False: "Grow"}, "R10.3", ["AllocOp::realloc", "shrink-iff-flag"], "AllocOp::realloc(flag) returns %s" % tab, rb.where(0), detail=str(tab))
 
 
 def _operand_check(ctx, b, fn, f, srcs, e):
